@@ -251,8 +251,8 @@ package mcp
 // unconstrained dynamic types, so "any JSON type in any field" is decided for
 // the whole type lattice at once).
 
-//@ sweepscope[C06] kinds=typeassert,close,nilmap,index,div files=streamable_server.go,sse_server.go,stdio_server.go,handler.go,manager_tools.go,manager_prompt.go,manager_resource.go,manager_lifecycle.go,jsonrpc.go,mcp_types.go,responder_json.go,responder_sse.go,responder.go,session.go,server.go,notifier.go,mcp_notification.go,internal/session/session.go
-//@ sweepscope[C07] kinds=typeassert,close,nilmap,index,div files=streamable_client.go,sse_client.go,transport_stdio.go,client.go,stdio_client.go,utils_json.go,mcp_tools.go,mcp_prompts.go,mcp_resources.go,transport_http.go except=.With,.New
+//@ sweepscope[C06] kinds=typeassert,close,nilmap,index,div files=internal/httputil/accept.go,internal/sseutil/writer.go,internal/session/session.go,streamable_server.go,sse_server.go,stdio_server.go,handler.go,manager_tools.go,manager_prompt.go,manager_resource.go,manager_lifecycle.go,jsonrpc.go,mcp_types.go,responder_json.go,responder_sse.go,responder.go,session.go,server.go,notifier.go,mcp_notification.go,internal/session/session.go
+//@ sweepscope[C07] kinds=typeassert,close,nilmap,index,div files=internal/utils/json.go,streamable_client.go,sse_client.go,transport_stdio.go,client.go,stdio_client.go,utils_json.go,mcp_tools.go,mcp_prompts.go,mcp_resources.go,transport_http.go except=.With,.New
 
 // Maps that are created by the constructor and never reassigned: final fields,
 // non-nil by type invariant (assumed for objects built by their constructors;
